@@ -142,3 +142,13 @@ def run(facts, rep, ctx):
     sm = [b.path for b in facts.body_list if re.search(r'FMDIndex::<.*>::(smems|all_smems)$', b.path)]
     round4.ri5(facts, rep, sm)
 
+
+
+_run_before_round5 = run
+
+
+def run(facts, rep, ctx):
+    """rules added after the fourth seeding round (rules/round5.py)"""
+    _run_before_round5(facts, rep, ctx)
+    from . import round5
+    round5.ls1(facts, rep)
